@@ -148,7 +148,7 @@ def gen_case(rng, tier):
             if rng.random() < 0.08:
                 # the call is interrupted (Ctrl-C, a signal, MemoryError ...) after that many
                 # executed library lines; whatever it had done to the caches stays
-                op["interrupt"] = int(10 ** rng.uniform(0, 3.7))
+                op["interrupt"] = int(10 ** rng.uniform(0, 3.7)) if rng.random() < 0.88 else {"guided": round(rng.random(), 3)}
             ops.append(op)
         elif r < 0.6:
             kind = rng.choice(["of_length", "of_length", "up_to_length", "first"])
@@ -186,7 +186,7 @@ def gen_case(rng, tier):
             elif rr < 0.84:
                 ops.append({"op": "drop", "cls": c})
             elif rr < 0.9:
-                ops.append({"op": "recycle", "n": rng.randint(0, 3)})
+                ops.append({"op": "recycle", "n": rng.randint(0, 3), "mode": rng.choice(["plain", "stale_after_clear"])})
             else:
                 ops.append({"op": "gc"})
     for iid in live:
@@ -335,7 +335,11 @@ def execute(case):
                 out.probe("two_classes_interleaved")
             last_cls = c
             if op.get("interrupt"):
-                status, resp, _n = histsim.run_interruptible(lambda: avops.run_query(av, op), op["interrupt"], _PREFIX())
+                at = op["interrupt"]
+                if isinstance(at, dict):
+                    at = histsim.guided_interrupt_at(lambda: avops.run_query(av, op), _PREFIX(), at["guided"])
+                    out.probe("guided_interrupt" if at else "guided_interrupt_no_state_change")
+                status, resp, _n = histsim.run_interruptible(lambda: avops.run_query(av, op), at or 10 ** 9, _PREFIX())
                 if status == "interrupted":
                     out.fault("interrupted_call")
                     out.probe("interrupted_call")
@@ -429,9 +433,21 @@ def execute(case):
             # created again in another order: the new objects tend to be allocated where the old
             # ones were, so anything remembered per object identity is now attached to the wrong class
             old_ids = {id(h) for h in handles if h is not None}
-            for ci in range(len(handles)):
-                handles[ci] = None
-            pm.Av.clear_cache()
+            if op.get("mode") == "stale_after_clear":
+                # the class cache is cleared while the handles live on and go one level deeper
+                # (whatever is remembered per object is registered again); only then are the
+                # handles dropped - without another clear
+                pm.Av.clear_cache()
+                for ci, h in enumerate(handles):
+                    if h is not None:
+                        d = _depth(h) or 1
+                        avops.run_query(h, {"op": "count", "n": min(d, classes[ci]["nmax"])})
+                for ci in range(len(handles)):
+                    handles[ci] = None
+            else:
+                for ci in range(len(handles)):
+                    handles[ci] = None
+                pm.Av.clear_cache()
             gc.collect()
             epoch["clear"] += 1
             order = list(range(len(classes)))
